@@ -245,6 +245,14 @@ impl Nodegraph {
         let mut bs = Vec::with_capacity(n_tables as usize);
         for _i in 0..n_tables {
             let tablesize: usize = rdr.read_u64::<LittleEndian>()? as usize;
+            if tablesize == 0 {
+                // every lookup reduces the hash modulo the table size
+                return Err(io::Error::new(
+                    io::ErrorKind::InvalidData,
+                    "nodegraph table of size zero",
+                )
+                .into());
+            }
             let byte_size = tablesize / 8 + 1;
 
             // `tablesize` comes from the file: read the table through a bounded
